@@ -474,3 +474,72 @@ func init() {
 		Outside: []string{"containers larger than the bound", "keys used with two types", "ZADD option flags, ZRANGE REV/BYSCORE forms, SET option flags (interface-rooted reply shapes)"},
 	})
 }
+
+func init() {
+	register(&Prop{
+		ID: "C14",
+		Jobs: func(rc *RunCtx) []JobSpec {
+			entries := []string{"configset", "configget", "setpass", "ping", "ping-lc", "select", "auth", "get", "quit", "connect", "conns", "connbyuuid", "addauth", "requirepass", "stop", "restart"}
+			lifecycle := map[string]bool{"stop": true, "restart": true}
+			pre := "1"
+			if rc.Tier == "thorough" {
+				pre = "2"
+			}
+			var js []JobSpec
+			for i, a := range entries {
+				for _, b := range entries[i:] {
+					if lifecycle[a] && lifecycle[b] {
+						continue
+					}
+					for _, wp := range []string{"0", "1"} {
+						if wp == "1" && !(a == "auth" || b == "auth" || a == "setpass" || b == "setpass" || a == "requirepass" || b == "requirepass" || a == "restart" || b == "restart") {
+							continue
+						}
+						js = append(js, JobSpec{Set: "redis", Fn: "HarnessC14Pair", Params: p("a", a, "b", b, "preempt", pre, "withpass", wp), Overrides: netOverrides})
+					}
+				}
+			}
+			return js
+		},
+		RequiredCovers: map[string][]string{"HarnessC14Pair": {"end"}},
+		Bounds: func(tier string) map[string]interface{} {
+			return map[string]interface{}{"goroutines": 2, "entries": "every unordered pair (incl. twice the same) of: a connection executing CONFIG SET / CONFIG GET / CONFIG SET requirepass / PING / ping / SELECT / AUTH / GET / QUIT, a bare connect+disconnect, Conns(), ConnByUUID(), AddAuthenticator(), SetRequirePass(), Stop(), Restart()+Stop(); with and without a configured password where it matters", "schedules": "all interleavings at synchronisation operations with <=1 (thorough 2) preemptions", "detector": "vector clocks per goroutine and per memory cell / map (FastTrack style); happens-before from go statements, sync.Mutex/RWMutex, sync.Map, sync/atomic, WaitGroup"}
+		},
+		Assumptions: append([]string{
+			"a race candidate found by the engine is reported only after the same harness, run natively under `go test -race` (up to 12 attempts, private network namespace), reports a data race too",
+			"two concurrent lifecycle calls (Stop||Restart) are not part of the workload; races inside application handlers and inside the Go runtime are outside the claim",
+			"preemption points are synchronisation operations; a race is an unordered pair of accesses, so it is detected on any schedule on which both accesses occur, whether or not they overlap in time",
+		}, commonAssumptions...),
+		Outside: []string{"more than two goroutines", "TLS accept loop and handshake goroutines"},
+	})
+}
+
+func init() {
+	register(&Prop{
+		ID: "C15",
+		Jobs: func(rc *RunCtx) []JobSpec {
+			var js []JobSpec
+			seqs := []string{"ST", "SR", "SRT", "STS", "SRR", "SS"}
+			cl, pre := "1", "1"
+			if rc.Tier == "thorough" {
+				seqs = append(seqs, "STST", "SRTS", "STSR", "SRRT")
+				cl, pre = "2", "2"
+			}
+			for _, s := range seqs {
+				js = append(js, JobSpec{Set: "redis", Fn: "HarnessC15Lifecycle", Params: p("seq", s, "clients", cl, "preempt", pre), Split: 6, Overrides: netOverrides})
+			}
+			return js
+		},
+		EngineOnly:     map[string]bool{"HarnessC15Lifecycle": true},
+		RequiredCovers: map[string][]string{"HarnessC15Lifecycle": {"end", "started", "stopped", "call-failed"}},
+		Bounds: func(tier string) map[string]interface{} {
+			return map[string]interface{}{"histories": "Start/Stop/Restart sequences ST, SR, SRT, STS, SRR, SS (thorough: + STST, SRTS, STSR, SRRT)", "clients": "1 (thorough 2) clients, each arriving while a nondeterministically chosen lifecycle call executes, then idle", "schedules": "caller, accept loops, connection goroutines and clients interleaved at synchronisation operations and at the verif-tagged schedule points, <=1 (thorough 2) preemptions", "network": "stub port table (bind fails while a listener on the port is open; closing a listener resets queued connections; a blocked Accept returns on close)"}
+		},
+		Assumptions: append([]string{
+			"net.Listen is redirected to the harness's port table; Accept blocks until a connection is queued or the listener is closed",
+			"'after Stop returned' is judged at quiescence for sockets, ports and the registry; that goroutines are still winding down when Stop returns is a known finding (known_findings.txt)",
+			"counterexamples are schedules of the engine's scheduler; they are reported after deterministic re-execution in the engine (native replay would need a schedule controller over real goroutines)",
+		}, commonAssumptions...),
+		Outside: []string{"real ports and kernel accept queues, timing, TLS port lifecycle, longer histories"},
+	})
+}
